@@ -193,7 +193,7 @@ func run(r *core.Run) {
 	corpus(r, key)
 	calcCases(r)
 	parseCases(r)
-	for n := 0; n < r.N(150, 5000); n++ {
+	for n := 0; n < r.N(150, 3000); n++ {
 		format := formats[n%3]
 		adversarial := rd.Chance(70)
 		specs := genHistory(rd, adversarial, 8)
